@@ -28,11 +28,21 @@ Definition item_ok (c : list (str * fmeta) * list str * list (str * str)) (it : 
   | CCallI => i = ICallFunction
   end.
 
+(* the two errors of name resolution *)
+Definition is_resolve_err (e : cerr) : bool :=
+  match e with EInvalidJump _ | ESuperLimitReached => true | _ => false end.
+
+(* ... and when the run fails with a resolution error, that error is what resolve_function returned for
+   the name of one of the items, in the same context *)
+Definition item_err (c : list (str * fmeta) * list str * list (str * str)) (its : list citem) (e : cerr) : Prop :=
+  exists name s0 l0, In (CPtr name) its /\ cctx s0 = c /\ resolve_function name s0 = RErr e l0.
+
 Definition E {A} (its : list citem) (m : M A) : Prop :=
   forall s, match m s with
             | ROk _ s' => cctx s' = cctx s /\
                           exists new, skel (cs_code s') = rev new ++ skel (cs_code s) /\
                                       Forall2 (item_ok (cctx s)) its new
+            | RErr e _ => is_resolve_err e = true -> item_err (cctx s) its e
             | _ => True
             end.
 
@@ -41,8 +51,12 @@ Proof. intros s. cbn. split; [reflexivity|]. exists []. split; [reflexivity | co
 
 Lemma E_bind {A B} a b (m : M A) (f : A -> M B) : E a m -> (forall x, E b (f x)) -> E (a ++ b) (bind m f).
 Proof.
-  intros Hm Hf s. unfold bind. specialize (Hm s). destruct (m s) as [x s1| | |]; auto.
-  destruct Hm as (Hc1 & n1 & Hs1 & Hi1). specialize (Hf x s1). destruct (f x s1) as [y s2| | |]; auto.
+  intros Hm Hf s. unfold bind. specialize (Hm s). destruct (m s) as [x s1|e l| |]; auto.
+  2:{ intros He. destruct (Hm He) as (name & s0 & l0 & Hin & H1 & H2). exists name, s0, l0.
+      split; [apply in_or_app; left; exact Hin | auto]. }
+  destruct Hm as (Hc1 & n1 & Hs1 & Hi1). specialize (Hf x s1). destruct (f x s1) as [y s2|e l| |]; auto.
+  2:{ intros He. destruct (Hf He) as (name & s0 & l0 & Hin & H1 & H2). exists name, s0, l0.
+      split; [apply in_or_app; right; exact Hin | split; [congruence | exact H2]]. }
   destruct Hf as (Hc2 & n2 & Hs2 & Hi2). split; [congruence|].
   exists (n1 ++ n2). split; [rewrite Hs2, Hs1, rev_app_distr, app_assoc; reflexivity|].
   apply Forall2_app; [exact Hi1 | rewrite <- Hc1; exact Hi2].
@@ -56,10 +70,14 @@ Lemma N_bind {A B} (m : M A) (f : A -> M B) : E [] m -> (forall x, E [] (f x)) -
 Proof. intros Hm Hf. apply (E_bind [] [] m f Hm Hf). Qed.
 
 Definition frame4 {A} (m : M A) : Prop :=
-  forall s, match m s with ROk _ s' => cs_code s' = cs_code s /\ cctx s' = cctx s | _ => True end.
+  forall s, match m s with
+            | ROk _ s' => cs_code s' = cs_code s /\ cctx s' = cctx s
+            | RErr e _ => is_resolve_err e = false
+            | _ => True
+            end.
 Lemma E_frame {A} (m : M A) : frame4 m -> E [] m.
 Proof.
-  intros Hf s. specialize (Hf s). destruct (m s) as [a s'| | |]; auto. destruct Hf as [Hc Hx].
+  intros Hf s. specialize (Hf s). destruct (m s) as [a s'|e l| |]; auto; [|intros He; congruence]. destruct Hf as [Hc Hx].
   split; [exact Hx|]. exists []. rewrite Hc. split; [reflexivity | constructor].
 Qed.
 Lemma frame4_ret {A} (a : A) : frame4 (ret a).
@@ -76,7 +94,7 @@ Lemma frame4_get_pc : frame4 get_pc. Proof. f4. Qed.
 Lemma frame4_get_pc_i32 : frame4 get_pc_i32. Proof. f4. Qed.
 Lemma frame4_panic {A} : frame4 (@panic A). Proof. f4. Qed.
 Lemma frame4_diverge {A} : frame4 (@diverge A). Proof. f4. Qed.
-Lemma frame4_error {A} e : frame4 (@error A e). Proof. f4. Qed.
+Lemma frame4_error {A} e : is_resolve_err e = false -> frame4 (@error A e). Proof. intros H s. exact H. Qed.
 Lemma frame4_push_sub i : frame4 (push_sub i). Proof. f4. Qed.
 Lemma frame4_pop_sub : frame4 pop_sub. Proof. f4. Qed.
 Lemma frame4_set_index_m f i : frame4 (set_index_m f i). Proof. f4. Qed.
@@ -85,7 +103,7 @@ Lemma frame4_scope_begin : frame4 scope_begin. Proof. f4. Qed.
 Lemma frame4_compile_begin : frame4 compile_begin. Proof. f4. Qed.
 Lemma frame4_compile_end : frame4 compile_end. Proof. f4. Qed.
 Lemma frame4_validate n : frame4 (validate_var_name n).
-Proof. unfold validate_var_name. destruct (is_empty n); f4. Qed.
+Proof. unfold validate_var_name. destruct (is_empty n); [apply frame4_error; reflexivity | f4]. Qed.
 Lemma frame4_add_local_unchecked n : frame4 (add_local_unchecked n).
 Proof. intros s. unfold add_local_unchecked. destruct (Nat.leb _ _); cbn; auto. Qed.
 Lemma frame4_add_local n : frame4 (add_local n).
@@ -146,7 +164,8 @@ Qed.
 Lemma E_fnptr name :
   E [CPtr name] (do m <- resolve_function name ;; push_instr (IFunctionPointer (fm_handle m) (fm_arity m))).
 Proof.
-  intros s. unfold bind. destruct (resolve_function name s) as [m s1| | |] eqn:Er; auto.
+  intros s. unfold bind. destruct (resolve_function name s) as [m s1|e l| |] eqn:Er; auto.
+  2:{ intros _. exists name, s, l. split; [left; reflexivity | auto]. }
   pose proof (resolve_function_state _ _ _ _ Er) as ->.
   rewrite push_instr_eq. unfold pushed. cbn. split; [reflexivity|].
   exists [IFunctionPointer (fm_handle m) (fm_arity m)]. split; [reflexivity|].
@@ -156,7 +175,8 @@ Lemma E_call name :
   E [CPtr name; CCallI]
     (do m <- resolve_function name ;; push_instr (IFunctionPointer (fm_handle m) (fm_arity m)) ;; push_instr ICallFunction).
 Proof.
-  intros s. unfold bind. destruct (resolve_function name s) as [m s1| | |] eqn:Er; auto.
+  intros s. unfold bind. destruct (resolve_function name s) as [m s1|e l| |] eqn:Er; auto.
+  2:{ intros _. exists name, s, l. split; [left; reflexivity | auto]. }
   pose proof (resolve_function_state _ _ _ _ Er) as ->.
   rewrite !push_instr_eq. unfold pushed. cbn. split; [reflexivity|].
   exists [IFunctionPointer (fm_handle m) (fm_arity m); ICallFunction]. split; [reflexivity|].
@@ -191,7 +211,7 @@ Qed.
 Ltac frame4_tac :=
   repeat first
     [ apply frame4_ret | apply frame4_get | apply frame4_get_pc | apply frame4_get_pc_i32 | apply frame4_panic
-    | apply frame4_diverge | apply frame4_error | apply frame4_push_sub | apply frame4_pop_sub
+    | apply frame4_diverge | apply frame4_error; reflexivity | apply frame4_push_sub | apply frame4_pop_sub
     | apply frame4_set_index_m | apply frame4_set_fh_m | apply frame4_scope_begin | apply frame4_compile_begin
     | apply frame4_compile_end | apply frame4_validate | apply frame4_add_local_unchecked
     | apply frame4_add_local | apply frame4_add_locals | apply frame4_handle_from_bytes
@@ -383,24 +403,34 @@ Definition item_ok2 (jt : list (str * fmeta)) (x : fitem) (i : instr) : Prop :=
 Definition fitems (f : function_ir) : list fitem :=
   map (fun it => (fi_ns f, fi_imports f, it)) (flat_map card_items (fi_cards f)).
 
+Definition fitem_err (jt : list (str * fmeta)) (its : list fitem) (e : cerr) : Prop :=
+  exists x name s0 l0, In x its /\ snd x = CPtr name /\ cctx s0 = (jt, fst (fst x), snd (fst x)) /\
+                       resolve_function name s0 = RErr e l0.
+
 Definition G {A} (its : list fitem) (m : M A) : Prop :=
   forall s, match m s with
             | ROk _ s' => cs_jump s' = cs_jump s /\
                           exists new, skel (cs_code s') = rev new ++ skel (cs_code s) /\
                                       Forall2 (item_ok2 (cs_jump s)) its new
+            | RErr e _ => is_resolve_err e = true -> fitem_err (cs_jump s) its e
             | _ => True
             end.
 Lemma G_bind {A B} a b (m : M A) (f : A -> M B) : G a m -> (forall x, G b (f x)) -> G (a ++ b) (bind m f).
 Proof.
-  intros Hm Hf s. unfold bind. specialize (Hm s). destruct (m s) as [x s1| | |]; auto.
-  destruct Hm as (Hc1 & n1 & Hs1 & Hi1). specialize (Hf x s1). destruct (f x s1) as [y s2| | |]; auto.
+  intros Hm Hf s. unfold bind. specialize (Hm s). destruct (m s) as [x s1|e l| |]; auto.
+  2:{ intros He. destruct (Hm He) as (it & name & s0 & l0 & Hin & H1 & H2 & H3). exists it, name, s0, l0.
+      split; [apply in_or_app; left; exact Hin | auto]. }
+  destruct Hm as (Hc1 & n1 & Hs1 & Hi1). specialize (Hf x s1). destruct (f x s1) as [y s2|e l| |]; auto.
+  2:{ intros He. destruct (Hf He) as (it & name & s0 & l0 & Hin & H1 & H2 & H3). exists it, name, s0, l0.
+      split; [apply in_or_app; right; exact Hin | split; [exact H1 | split; [congruence | exact H3]]]. }
   destruct Hf as (Hc2 & n2 & Hs2 & Hi2). split; [congruence|].
   exists (n1 ++ n2). split; [rewrite Hs2, Hs1, rev_app_distr, app_assoc; reflexivity|].
   apply Forall2_app; [exact Hi1 | rewrite <- Hc1; exact Hi2].
 Qed.
 Lemma G_nil {A} (m : M A) : E [] m -> G [] m.
 Proof.
-  intros H s. specialize (H s). destruct (m s) as [x s1| | |]; auto.
+  intros H s. specialize (H s). destruct (m s) as [x s1|e l| |]; auto.
+  2:{ intros He. destruct (H He) as (name & s0 & l0 & [] & _). }
   destruct H as (Hc & new & Hs & Hi). inversion Hi; subst. split; [unfold cctx in Hc; congruence|].
   exists []. split; [exact Hs | constructor].
 Qed.
@@ -413,7 +443,10 @@ Proof.
   set (s1 := set_fctx (fi_ns f) (fi_imports f) s).
   assert (HE : E (flat_map card_items (fi_cards f)) (add_locals (rev (fi_args f)) ;; process_cards (fi_cards f) 0)).
   { eapply E_eq; [eapply E_bind; [apply E_frame, frame4_add_locals | intros _; apply E_process_cards] | reflexivity]. }
-  specialize (HE s1). destruct ((add_locals (rev (fi_args f)) ;; process_cards (fi_cards f) 0) s1) as [x s2| | |]; auto.
+  specialize (HE s1). destruct ((add_locals (rev (fi_args f)) ;; process_cards (fi_cards f) 0) s1) as [x s2|e l| |]; auto.
+  2:{ intros He. destruct (HE He) as (name & s0 & l0 & Hin & H1 & H2).
+      exists (fi_ns f, fi_imports f, CPtr name), name, s0, l0. split; [|auto].
+      unfold fitems. apply in_map_iff. exists (CPtr name). auto. }
   destruct HE as (Hc & new & Hs & Hi). split; [unfold cctx in Hc; injection Hc as -> _ _; reflexivity|].
   exists new. split; [exact Hs|]. unfold fitems.
   clear -Hi. induction Hi; cbn [map]; constructor; auto.
@@ -652,6 +685,116 @@ Proof.
   destruct (compile_label_points_to_body M o B _ _ f _ Hi Hsplit Hpre Hc Hd) as (before & body & rest & H1 & H2 & H3).
   exists f, before, body, rest. split; [exact Hir|]. split; [exact H1|].
   split; [|exact H3]. destruct Hir as (_ & _ & _ & _ & _ & E6 & _). rewrite <- E6. exact H2.
+Qed.
+
+(* ------------------------------------------------------------------ corollaries *)
+Lemma Forall2_In_l {A B} (R : A -> B -> Prop) a b x : Forall2 R a b -> In x a -> exists y, In y b /\ R x y.
+Proof.
+  induction 1 as [|x0 y0 a b H0 _ IH]; intros Hin; [destruct Hin|].
+  destruct Hin as [<-|Hin]; [exists y0; split; [left; reflexivity | exact H0]|].
+  destruct (IH Hin) as (y & Hy & Hr). exists y. split; [right; exact Hy | exact Hr].
+Qed.
+Lemma Forall2_In_r {A B} (R : A -> B -> Prop) a b y : Forall2 R a b -> In y b -> exists x, In x a /\ R x y.
+Proof.
+  induction 1 as [|x0 y0 a b H0 _ IH]; intros Hin; [destruct Hin|].
+  destruct Hin as [<-|Hin]; [exists x0; split; [left; reflexivity | exact H0]|].
+  destruct (IH Hin) as (x & Hx & Hr). exists x. split; [right; exact Hx | exact Hr].
+Qed.
+
+(* if the module compiles, every static call / function reference of every function of the tree
+   resolves under the specification, and the program contains the FunctionPointer of its target *)
+Theorem compile_every_call_resolves M o B :
+  compile M o = COk B ->
+  module_names_dotfree (with_std std_module M) = true ->
+  exists is, p_bytecode B = encode is /\
+    forall st name,
+      In st (tree_functions (with_std std_module M) []) ->
+      In (CPtr name) (flat_map card_items (f_cards (fs_fn st))) ->
+      exists pos ar, site_target (with_std std_module M) st name = Some (pos, ar) /\
+                     In (IFunctionPointer (handle_from_u64 (N.of_nat pos)) (N.of_nat ar mod two32)) is.
+Proof.
+  intros Hc Hd. destruct (compile_calls M o B Hc Hd) as (is & mi & Hb & _ & Hf).
+  exists is. split; [exact Hb|]. intros st name Hst Hn.
+  assert (Hin : In (st, CPtr name) (flat_map site_items (swap0 (tree_functions (with_std std_module M) []) mi))).
+  { apply in_flat_map. exists st. split; [apply in_swap0, Hst|]. unfold site_items. apply in_map. exact Hn. }
+  destruct (Forall2_In_l _ _ _ _ Hf Hin) as (i & Hi & Hok). unfold site_item_ok in Hok. cbn [fst snd] in Hok.
+  destruct Hok as (pos & ar & Ht & ->). exists pos, ar. split; [exact Ht|].
+  apply filter_In in Hi. apply Hi.
+Qed.
+
+(* ---- resolution errors of compile ---- *)
+Lemma execute_imports_not_resolve_err imps acc e : execute_imports imps acc = inl e -> is_resolve_err e = false.
+Proof.
+  intros H. destruct (execute_imports_errors _ _ _ H) as (imp & _ & [[-> _]|[-> _]]); reflexivity.
+Qed.
+Lemma flatten_module_not_resolve_err m : forall limit ns out n e,
+  flatten_module m limit ns out n = inl e -> is_resolve_err e = false.
+Proof.
+  induction m as [subs funs imps IHs] using module_ind'. intros limit ns out n e H. cbn [flatten_module] in H.
+  destruct (limit <=? N.of_nat (length ns)); [injection H as <-; reflexivity|].
+  destruct (execute_imports imps []) as [e0|imports] eqn:Ei.
+  { injection H as <-. eapply execute_imports_not_resolve_err; eauto. }
+  destruct (flatten_functions funs 0 ns imports out n) as [e0|[out1 n1]] eqn:Ef.
+  { injection H as <-. destruct (flatten_functions_errors _ _ _ _ _ _ _ Ef) as (nm & -> & _). reflexivity. }
+  clear Ef. revert out1 n1 H. induction IHs as [|[name sub] r Hsub _ IHr]; intros out1 n1 H; [discriminate|].
+  cbn [snd] in Hsub. destruct (flatten_module sub limit (ns ++ [name]) out1 n1) as [e0|[o k]] eqn:Em.
+  - injection H as <-. eapply Hsub; eauto.
+  - eapply IHr; eauto.
+Qed.
+Lemma into_ir_stream_not_resolve_err M limit e : into_ir_stream M limit = inl e -> is_resolve_err e = false.
+Proof.
+  destruct M as [subs funs imps]. unfold into_ir_stream. intros H.
+  destruct (ensure_invariants _); [injection H as <-; reflexivity|].
+  destruct (find_index _ funs 0); [|injection H as <-; reflexivity].
+  destruct (flatten_module _ limit [] [] 0) as [e0|[out k]] eqn:Ef; [|discriminate].
+  injection H as <-. eapply flatten_module_not_resolve_err; eauto.
+Qed.
+
+Theorem compile_ir_resolve_error fs d e l :
+  compile_ir fs (init_state d) = RErr e l -> is_resolve_err e = true ->
+  exists s1, stage_1 fs (init_state d) = ROk tt s1 /\ fitem_err (cs_jump s1) (flat_map fitems fs) e.
+Proof.
+  intros H He. destruct fs as [|f r]; [cbn in H; injection H as <- _; discriminate|]. unfold compile_ir in H.
+  unfold bind in H.
+  destruct (stage_1 (f :: r) (init_state d)) as [[] s1|e1 l1| |] eqn:E1; try discriminate.
+  2:{ injection H as <- _. destruct (stage_1_errors _ _ _ _ E1) as [n ->]. discriminate. }
+  exists s1. split; [reflexivity|].
+  pose proof (G_stage_2 (f :: r) s1) as G2.
+  destruct (stage_2 (f :: r) s1) as [[] s2|e2 l2| |]; try discriminate.
+  injection H as <- _. exact (G2 He).
+Qed.
+
+(* compile fails with InvalidJump / SuperLimitReached only because some static call or function
+   reference of the tree does not resolve under the specification - with exactly that outcome *)
+Theorem compile_resolve_error M o e l :
+  compile M o = CErr e l -> is_resolve_err e = true ->
+  module_names_dotfree (with_std std_module M) = true ->
+  exists st name,
+    In st (tree_functions (with_std std_module M) []) /\
+    In (CPtr name) (flat_map card_items (f_cards (fs_fn st))) /\
+    ((e = EInvalidJump name /\ spec_resolve (with_std std_module M) (fs_path st) (fs_imports st) name = SNotFound) \/
+     (e = ESuperLimitReached /\ spec_resolve (with_std std_module M) (fs_path st) (fs_imports st) name = SSuperLimit)).
+Proof.
+  intros Hc He Hd. unfold compile in Hc.
+  destruct (into_ir_stream M (o_recursion_limit o)) as [e0|fs] eqn:Hi.
+  { injection Hc as <- _. rewrite (into_ir_stream_not_resolve_err _ _ _ Hi) in He. discriminate. }
+  destruct (compile_ir fs (init_state (o_debug o))) as [[] s|e1 l1| |] eqn:Hir; try discriminate.
+  injection Hc as <- <-.
+  destruct (compile_ir_resolve_error _ _ _ _ Hir He) as (s1 & H1 & (x & name & s0 & l0 & Hx & Hsnd & Hctx & Hr)).
+  pose proof (compile_table_matches _ _ _ _ _ Hi Hd H1) as Ht.
+  destruct (into_ir_stream_spec _ _ _ Hi) as (_ & irs & mi & -> & Hirs).
+  unfold module_names_dotfree in Hd. pose proof Hd as Hd'. apply negb_true_iff in Hd'.
+  assert (Hsi : Forall2 site_ir (tree_functions (with_std std_module M) []) irs).
+  { apply (irs_from_site_ir _ 0); [|exact Hirs].
+    intros st Hst. apply (site_path_dotfree _ O [] st Hd' (Forall_nil _) Hst). }
+  apply in_flat_map in Hx. destruct Hx as (f & Hf & Hx). apply in_swap0 in Hf.
+  destruct (Forall2_In_r _ _ _ _ Hsi Hf) as (st & Hst & [[k (E1 & E2 & E3 & E4 & E5 & E6 & E7)] Hp]).
+  unfold fitems in Hx. apply in_map_iff in Hx. destruct Hx as (it & <- & Hit). cbn [fst snd] in *. subst it.
+  exists st, name. split; [exact Hst|]. split; [rewrite <- E3; exact Hit|].
+  unfold cctx in Hctx. injection Hctx as Hj Hn Himp.
+  destruct (resolve_errors (with_std std_module M) (fs_imports st) name s0) as (Herr & _ & _).
+  { rewrite Hj. exact Ht. } { rewrite Hn, E4. exact Hp. } { rewrite Himp. exact E5. }
+  destruct (Herr _ _ Hr) as (_ & Hcase). rewrite Hn, E4 in Hcase. exact Hcase.
 Qed.
 
 Lemma Forall2_firstn {A B} (R : A -> B -> Prop) n : forall a b, Forall2 R a b -> Forall2 R (firstn n a) (firstn n b).
